@@ -293,6 +293,11 @@ def canTake (st : State) : Bool :=
   (st.cfg.strict || decide (liveCount st.streams + 1 ≤ st.maxConcurrent)) &&
   decide ((st.nextStreamID : Int) + (if st.pendingOpen.isSome then 2 else 0) < 2147483647)
 
+/-- `cs.flow.add(int32(cc.initialWindowSize))` on a fresh stream (window 0). The addition
+cannot fail for a legal SETTINGS_INITIAL_WINDOW_SIZE (`streamOut0_eq`); the Go code ignores the
+result, so a failure would leave the window at 0. -/
+def streamOut0 (iw : Nat) : Int := (addWindow 0 (wrap32 iw)).getD 0
+
 /-- `addStreamLocked` + `encodeAndWriteHeaders` + the start of `writeRequestBody`. -/
 def doOpen (st : State) (hdrLen bodyLen : Nat) (known : Bool) : State × List Frame :=
   let id := st.nextStreamID
@@ -300,7 +305,7 @@ def doOpen (st : State) (hdrLen bodyLen : Nat) (known : Bool) : State × List Fr
   let cl : Int := if known then bodyLen else -1
   let s : Stream :=
     { id := id, live := true,
-      out := match addWindow 0 (wrap32 st.initialWindowSize) with | some w => w | none => 0,
+      out := streamOut0 st.initialWindowSize,
       known := known, bodyRemain := bodyLen, chunk := 0,
       scratch := (scratchLen cl st.maxFrameSize).toNat,
       sentEnd := !hasBody,
@@ -340,21 +345,24 @@ def feed (st : State) (id n : Nat) : State × List Frame :=
 
 /-- one iteration of the body writer: `awaitFlowControl` then `WriteData`; `none` when the
 writer is blocked (no window, nothing to write, or finished). -/
+def available (connOut out : Int) : Int := if connOut < out then connOut else out
+
+/-- the DATA frame written when the stream has window and a non-empty scratch buffer -/
+def dataStep (connOut : Int) (maxFrame : Nat) (s : Stream) : Int × Stream × Frame :=
+  let take := awaitTake (available connOut s.out) s.chunk maxFrame
+  let chunk' := s.chunk - take.toNat
+  let last := decide (chunk' = 0) && decide (s.bodyRemain = 0) && s.known
+  (connOut - take, { s with out := s.out - take, chunk := chunk', sentEnd := last },
+   Frame.data s.id take.toNat last)
+
 def writeStep (connOut : Int) (maxFrame : Nat) (s : Stream) : Option (Int × Stream × Frame) :=
   if !s.live || s.sentEnd then none
   else if s.chunk = 0 then
     if s.bodyRemain = 0 ∧ !s.known then
       some (connOut, { s with sentEnd := true }, Frame.data s.id 0 true)
     else none
-  else
-    let a := if connOut < s.out then connOut else s.out
-    if a ≤ 0 then none
-    else
-      let take := awaitTake a s.chunk maxFrame
-      let chunk' := s.chunk - take.toNat
-      let last := decide (chunk' = 0) && decide (s.bodyRemain = 0) && s.known
-      some (connOut - take, { s with out := s.out - take, chunk := chunk', sentEnd := last },
-            Frame.data s.id take.toNat last)
+  else if available connOut s.out ≤ 0 then none
+  else some (dataStep connOut maxFrame s)
 
 def write (st : State) (id : Nat) : State × List Frame :=
   match findStream st.streams id with
@@ -369,41 +377,58 @@ def cancel (st : State) (id : Nat) : State × List Frame :=
   | none => (st, [])
   | some s => if s.live then terminate st s false else (st, [])
 
+/-- `k` bytes leave the pipe: credit at connection and stream level -/
+def readCore (st : State) (s : Stream) (k : Nat) : State × List Frame :=
+  match Inflow.add st.connIn k with
+  | .panic => panicState st
+  | .ok (ci, connAdd) =>
+    match Inflow.add s.inflow k with
+    | .panic => panicState st
+    | .ok (si, streamAdd) =>
+      ({ st with connIn := ci,
+                 streams := setStream st.streams { s with inflow := si, buffered := s.buffered - k } },
+       wuFrame 0 connAdd ++ wuFrame s.id streamAdd)
+
 def read (st : State) (id n : Nat) : State × List Frame :=
   match findStream st.streams id with
   | none => (st, [])
   | some s =>
     if s.gotHeaders ∧ ¬ s.noBody ∧ ¬ s.broken ∧ s.buffered > 0 ∧ n > 0 then
-      let k := if n < s.buffered then n else s.buffered
-      match Inflow.add st.connIn k with
-      | .panic => panicState st
-      | .ok (ci, connAdd) =>
-        match Inflow.add s.inflow k with
-        | .panic => panicState st
-        | .ok (si, streamAdd) =>
-          ({ st with connIn := ci,
-                     streams := setStream st.streams { s with inflow := si, buffered := s.buffered - k } },
-           wuFrame 0 connAdd ++ wuFrame id streamAdd)
+      readCore st s (if n < s.buffered then n else s.buffered)
     else (st, [])
+
+/-- `Body.Close` on a stream that may still be in `cc.streams` -/
+def closeStream (st : State) (s s' : Stream) : State × List Frame :=
+  if s.live then terminate st s' false
+  else ({ st with streams := setStream st.streams s' }, [])
+
+/-- return `n` bytes of connection-level credit after `r` (frames of `r` are written by another
+goroutine; the rendering sorts them by stream) -/
+def creditConn (r : State × List Frame) (n : Nat) : State × List Frame :=
+  if n > 0 then
+    match Inflow.add r.1.connIn n with
+    | .panic => ({ r.1 with panicked := true, closed := true }, r.2)
+    | .ok (ci, connAdd) => ({ r.1 with connIn := ci }, wuFrame 0 connAdd ++ r.2)
+  else r
 
 def close (st : State) (id : Nat) : State × List Frame :=
   match findStream st.streams id with
   | none => (st, [])
   | some s =>
     if s.gotHeaders ∧ ¬ s.noBody ∧ ¬ s.broken then
-      let unread := s.buffered
-      let s' := { s with broken := true, buffered := 0 }
-      let (st1, fs1) :=
-        if s.live then terminate st s' false
-        else ({ st with streams := setStream st.streams s' }, [])
-      if unread > 0 then
-        match Inflow.add st1.connIn unread with
-        | .panic => panicState st1
-        | .ok (ci, connAdd) => ({ st1 with connIn := ci }, wuFrame 0 connAdd ++ fs1)
-      else (st1, fs1)
+      creditConn (closeStream st s { s with broken := true, buffered := 0 }) s.buffered
     else (st, [])
 
 /-! ## Peer events -/
+
+/-- effect of a SETTINGS_INITIAL_WINDOW_SIZE change on one stream: `cs.flow.add(delta)` for the
+streams in `cc.streams`; the result of the addition is ignored by the Go code -/
+def deltaStream (delta : Int) (s : Stream) : Stream :=
+  if s.live then
+    match addWindow s.out delta with
+    | some w => { s with out := w }
+    | none => s
+  else s
 
 /-- `processSettingsNoWrite` on one setting; `none` = connection error. -/
 def applySetting (st : State) (seenMax : Bool) (p : Nat × Nat) : Option (State × Bool) :=
@@ -412,14 +437,8 @@ def applySetting (st : State) (seenMax : Bool) (p : Nat × Nat) : Option (State 
   else if p.1 = sInitialWindowSize then
     if p.2 > 2147483647 then none
     else
-      let delta : Int := (p.2 : Int) - (st.initialWindowSize : Int)
-      let streams := st.streams.map fun s =>
-        if s.live then
-          match addWindow s.out delta with
-          | some w => { s with out := w }
-          | none => s                       -- the result of cs.flow.add is ignored
-        else s
-      some ({ st with streams := streams, initialWindowSize := p.2 }, seenMax)
+      some ({ st with streams := st.streams.map (deltaStream ((p.2 : Int) - (st.initialWindowSize : Int))),
+                      initialWindowSize := p.2 }, seenMax)
   else some (st, seenMax)
 
 def applySettings (st : State) (seenMax : Bool) : List (Nat × Nat) → Option (State × Bool)
@@ -466,17 +485,20 @@ def peerRst (st : State) (id code : Nat) : State × List Frame :=
     else terminate { st with doNotReuse := st.doNotReuse || decide (code = 1) } s true
 
 /-- abort every live stream above `last` (each writes its own RST_STREAM). -/
-def abortAbove (last : Nat) : List Stream → State → State × List Frame
+def abortAbove (last : Nat) : List Nat → State → State × List Frame
   | [], st => (st, [])
-  | s :: rest, st =>
-    if s.live ∧ s.id > last then
-      let (st1, f1) := terminate st s false
-      let (st2, f2) := abortAbove last rest st1
-      (st2, f1 ++ f2)
-    else abortAbove last rest st
+  | id :: rest, st =>
+    match findStream st.streams id with
+    | none => abortAbove last rest st
+    | some s =>
+      if s.live ∧ s.id > last then
+        let (st1, f1) := terminate st s false
+        let (st2, f2) := abortAbove last rest st1
+        (st2, f1 ++ f2)
+      else abortAbove last rest st
 
 def peerGoAway (st : State) (last : Nat) : State × List Frame :=
-  abortAbove last st.streams { st with goAway := true }
+  abortAbove last (st.streams.map (·.id)) { st with goAway := true }
 
 def peerHeaders (st : State) (id : Nat) (endStream : Bool) : State × List Frame :=
   match findStream st.streams id with
@@ -526,6 +548,24 @@ def peer (st : State) : PFrame → State × List Frame
   | .goaway last => peerGoAway st last
   | .headers id e => peerHeaders st id e
   | .data id len pad e => peerData st id len pad e
+
+/-! ## Well-formed operations
+
+What the theorems assume about the environment: a request always has a non-empty header
+block (`encodeHeaders` emits at least the pseudo-header fields), the peer's
+SETTINGS_MAX_FRAME_SIZE is inside the range RFC 9113 section 6.5.2 allows (the client does not
+validate it: a value of 0 makes `writeHeaders` loop forever — C07's subject), and a
+WINDOW_UPDATE increment is a 31-bit number (the frame parser masks the reserved bit). -/
+
+def PFrame.ok : PFrame → Prop
+  | .settings vals => ∀ p ∈ vals, p.1 = sMaxFrameSize → 16384 ≤ p.2
+  | .windowUpdate _ inc => inc ≤ 2147483647
+  | _ => True
+
+def Op.ok : Op → Prop
+  | .openStream h _ _ => 0 < h
+  | .peer f => f.ok
+  | _ => True
 
 /-! ## The machine -/
 
